@@ -192,6 +192,7 @@ def gen_model(st, log):
     gen_model_one(st, log, 'Src', 'gen_model.json', [], 'source_translation')
     gen_model_one(st, log, 'SrcWasm', 'gen_model_wasm.json', ['-wasm'], 'source_translation_wasm')
     gen_model_one(st, log, 'SrcMain', 'gen_model_main.json', ['-main'], 'source_translation_binding')
+    gen_model_one(st, log, 'SrcRest', 'gen_model_rest.json', ['-rest', '-lib', os.path.join(COQ, 'Generated', 'Src.v')], 'source_translation_rest')
 
 
 def gen_model_one(st, log, module, repname, flags, key):
